@@ -454,6 +454,39 @@ func c09mx(run *Run) {
 			}
 		})
 	}
+	// family "drain-close": init, k streams, answered in every order (optionally after a go-away), the connection closed with
+	// every close kind, re-init, k new streams
+	mxClose := []string{"closer", "closerst", "closel", "closereaderr", "closewerr", "closewto"}
+	for k := 2; k <= 4; k++ {
+		for pi, order := range permutations(k) {
+			for variant := 0; variant < 3; variant++ {
+				ops := []op{{K: "init"}, {K: "init"}}
+				for i := 0; i < k; i++ {
+					ops = append(ops, op{K: "new"})
+				}
+				if variant == 1 {
+					ops = append(ops, op{"goaway", 0}, op{K: "init"}, op{K: "new"})
+				}
+				for j, i := range order {
+					if variant == 2 && j == k-1 {
+						break // close with one stream still in flight
+					}
+					ops = append(ops, op{"resp", i})
+				}
+				ops = append(ops, op{mxClose[(pi+variant)%len(mxClose)], 0}, op{K: "init"}, op{K: "init"})
+				for i := 0; i < k; i++ {
+					ops = append(ops, op{K: "new"})
+				}
+				jobs = append(jobs, func() {
+					collect(runMx(0, len(ops), true, func(step int, en []op) *op {
+						o := ops[step]
+						// a scripted op on a connection that is already closed / a stream that already ended is skipped by the world
+						return &o
+					}))
+				})
+			}
+		}
+	}
 	nrand := run.N(600, 8000)
 	seeds := make([]uint64, nrand)
 	for i := range seeds {
